@@ -985,7 +985,9 @@ def check_lifecycle(scn, res):
     if c['ending'].startswith('exit-after'):
         end = next((e for e in per.get((c['victim'], 0), []) if e['ev'] == 'end'), None)
 
-        if end is not None and end['how'] == 'returned' and not (300 <= end['t'] <= 300 + 40 + 100 + 60):
+        slack = 200 if c['ending'] == 'exit-after-outtimeout' else 0      # one more loop iteration may wait out outputs_timeout
+
+        if end is not None and end['how'] == 'returned' and not (300 <= end['t'] <= 300 + 40 + 100 + 60 + slack):
             bad('exit-after-time', f'{c["victim"]} with exit_after 0.3 s ended at {end["t"]} ms')
 
     return viols
